@@ -52,6 +52,7 @@ schedule in which `close` is taken when `got.length = k`.
 | `Iterator.ProcessParallel`, `itertool.ParallelForEach/Process/Worker` | FanOut(n) | Split(n) + n worker goroutines `ReadAll(split.Producer())` under `ctx' = WithCancel(ctx)`; `hasOut = false`; closer = the calling goroutine `wg.Wait(Background)` (`closerCtx = false`) | iterator.go:546-581, itertool.go:23-76 |
 | `fun.Map`, `itertool.Map` (`Transform.ProcessParallel`) | FanOut(n) | Split(n) + n workers that send the transformed item into `output` (`cap = 0`, `hasOut`), all under `wctx2`; closer `wg.Wait(wctx)`, `wcancel`, `output.Close` (`closerCtx`); `workerCancels`: since `fix:` c9331e6 the worker's processor is wrapped in `WithErrorFilter(err ≠ nil → wcancel)`, and without processing errors `mapPullProcess` returns an error exactly when its send failed (`output.Check(ctx, val)` false: `wctx2` done or `output` closed), so a worker that gives up its item also cancels `wctx2` — which is already done at that moment | transform.go:80-123, 288-307 |
 | `Iterator.ParallelBuffer n` | FanOut(max 1 n) | a goroutine (`.Once().Go()`: `onceGo`) runs `ProcessParallel(buf.Processor())`: workers send into `buf` (`cap = n`, `hasOut`); closer = that goroutine: `wg.Wait(Background)` (`closerCtx = false`), deferred cancel, `buf.Close` | iterator.go:605-609 |
+| any option-taking construct with a **rejected option set** (`invalid`) | same shape | Map, GenerateParallel: the constructor records the error (`AddError` / `ErrorHandler`) and closes the output channel at once, yet the first advance still runs `init` (reader, workers, closer start; a worker may run the user function / call the generator once, its send meets the closed channel: `wSendClosed` / `pSendClosed`); the consumer's first `Read` sees closed-and-empty → `io.EOF`. ProcessParallel / ParallelForEach / Worker: `cancel()` of its own context right after `Apply`, then the workers are started and leave at their first `ReadOne` (`wCtxFresh`); the worker returns `opts.ErrorResolver()` — the configuration error itself is **not** returned (observation) | transform.go:116-123, producer.go:559-565, iterator.go:551-580 |
 | concurrent `ReadOne` on `ChannelIterator(ch)` | FanOut(n) | `hasOut = false`, no closer; the "reader" is the user goroutine feeding `ch`; a buffered `ch` is modelled by the rendezvous pipe (same outcome multisets; the driver compares these outcomes as multisets only). All readers share the iterator's context: the first reader that sees EOF closes it, so another parked reader may return `context.Canceled` instead of `io.EOF` (observation; nothing is lost) | iterator.go:100,231-254, chan.go:216-229 |
 
 Core Lean only (linked into the driver). -/
@@ -217,6 +218,8 @@ structure Cfg where
   cap : Nat               -- MergeIterators 0; GenerateParallel 2n+1
   srcChecksCtx : Bool     -- a producer looks at `ctx.Err()` before it reads: MergeIterators `ReadOne(wctx2)`; GenerateParallel since c9331e6
   closerCtx : Bool        -- the closer's `Wait(wctx)` returns when the iterator's context is done (both: true)
+  invalid : Bool := false -- rejected option set: the constructor closed the pipe (`ft.WhenCall(initErr != nil, pipe.Close)`,
+                          -- producer.go:563); init still starts the producers and the closer on the first advance
   deriving Repr, DecidableEq
 
 structure Prod where
@@ -266,9 +269,9 @@ def St.wdone2 (s : St) : Bool := s.closed || s.ucancel || s.wcancel
 
 def St.allProdsExited (s : St) : Bool := s.prods.all (·.exited)
 
-def init (privs : List (List Nat)) (shared : List Nat) (closes cancels : Nat) : St :=
+def init (c : Cfg) (privs : List (List Nat)) (shared : List Nat) (closes cancels : Nat) : St :=
   { shared := shared, prods := privs.map (fun l => { src := l, held := none, exited := false }), started := false,
-    pipe := [], pclosed := false, wcancel := false, kst := .waiting, closed := false, ucancel := false,
+    pipe := [], pclosed := c.invalid, wcancel := false, kst := .waiting, closed := false, ucancel := false,
     envStopped := false, cons := .idle, got := [], dropped := [], closeBudget := closes, cancelBudget := cancels }
 
 def step (c : Cfg) (s : St) : Act → Option St
@@ -357,7 +360,7 @@ def St.terminal (s : St) : Bool := s.allExited && s.cons = .done
 def run (c : Cfg) (s : St) (as : List Act) : Option St := as.foldlM (step c) s
 
 def Reachable (c : Cfg) (privs : List (List Nat)) (shared : List Nat) (closes cancels : Nat) (s : St) : Prop :=
-  ∃ as, run c (init privs shared closes cancels) as = some s
+  ∃ as, run c (init c privs shared closes cancels) as = some s
 
 /-- everything that is in flight or waiting to be read -/
 def St.items (s : St) : List Nat :=
@@ -386,6 +389,10 @@ structure Cfg where
   onceGo : Bool           -- `.Once().Go()` (ParallelBuffer)
   lazy : Bool             -- started by the first ReadOne of the output (Map, ParallelBuffer)
   workerCancels : Bool    -- a worker whose send fails cancels the group's context itself (Map since c9331e6)
+  invalid : Bool := false -- rejected option set. With an output (Map): the constructor closed `output`
+                          -- (`ft.WhenCall(err != nil, output.Close)`, transform.go:121) but init still starts reader, workers
+                          -- and closer on the first advance. Without (ProcessParallel): the worker cancels its own context
+                          -- before it starts the workers (`ft.WhenCall(err != nil, cancel)`, iterator.go:556)
   deriving Repr, DecidableEq
 
 structure St where
@@ -449,7 +456,7 @@ def St.live (s : St) : Nat := s.fresh + s.idle + s.hold.length
 
 def init (c : Cfg) (input : List Nat) (closes cancels : Nat) : St :=
   { src := input, rd := .notStarted, spawned := 0, pclosed := false, started := !c.lazy, fresh := c.n, idle := 0,
-    hold := [], wexited := 0, out := [], oclosed := false, wcancel := false, kst := .waiting, closed := false,
+    hold := [], wexited := 0, out := [], oclosed := c.invalid && c.hasOut, wcancel := c.invalid && !c.hasOut, kst := .waiting, closed := false,
     ucancel := false, envStopped := false, cons := if c.hasOut then .idle else .done, got := [], seen := [],
     droppedW := [], droppedR := [], waiters := 0, closeBudget := closes, cancelBudget := cancels }
 
@@ -703,14 +710,14 @@ def outcome (s : St) : Outcome :=
 end Feeder
 
 namespace FanIn
-def outcome (s : St) : Outcome :=
-  { delivered := s.got, failureFree := !s.envStopped, eof := s.cons = .done && s.pclosed,
+def outcome (c : Cfg) (s : St) : Outcome :=
+  { delivered := s.got, failureFree := !s.envStopped && !c.invalid, eof := s.cons = .done && s.pclosed,
     leaked := if s.started then (s.prods.filter (fun p => !p.exited)).length + (if s.kst = .exited then 0 else 1) else 0 }
 end FanIn
 
 namespace FanOut
 def outcome (c : Cfg) (s : St) : Outcome :=
-  { delivered := s.got ++ s.seen, failureFree := !s.envStopped,
+  { delivered := s.got ++ s.seen, failureFree := !s.envStopped && !c.invalid,
     eof := s.cons = .done && (if c.hasOut then s.oclosed else s.pclosed),
     leaked := if s.started then (if s.rd = .exited || s.rd = .notStarted then 0 else 1) + s.live
                 + (if c.hasCloser && s.kst != .exited then 1 else 0) + s.waiters else 0 }
